@@ -24,6 +24,14 @@ struct state
     std::optional<djinterop::database> db;
     std::map<std::string, djinterop::crate> crates;
     std::map<std::string, djinterop::track> tracks;
+    // `#alias on`: for every script variable a SECOND, independently obtained handle object onto the same crate /
+    // track (crate_by_id / track_by_id at the time the variable is bound); calls through the variable then alternate
+    // between the two objects.  The model's handles are stateless, so the script's expected answers do not change;
+    // a per-object cache in the library (getters answering from what THIS object last read or wrote) does.
+    bool alias = false;
+    unsigned alias_ctr = 0;
+    std::map<std::string, djinterop::crate> crates2;
+    std::map<std::string, djinterop::track> tracks2;
     std::string dir;     // library directory ("" for in-memory)
     std::string schema;  // enumerator name
     bool disk = false;
